@@ -180,7 +180,13 @@ def check(run, prop):
     ctx = prop.Context(run, tables)
     # 3+4: corpus, correspondence, oracle
     escalate = bool(ob['broken'])
-    result = prop.explore(ctx, escalate=escalate)
+    import cover
+    cv = cover.Cover(os.path.join(common.REPO, 'python', 'pydiffx'))
+    cv.start()
+    try:
+        result = prop.explore(ctx, escalate=escalate)
+    finally:
+        cv.stop()
     # result: dict(evaluations, distinct_nontrivial, rule, samples, exhaustive,
     #              disagreements=[...], violations=[...], distribution={...})
     known = [k for k in common.load_known_findings() if k['property'] == pid]
@@ -252,6 +258,9 @@ def check(run, prop):
         'fingerprints': (tables or {}).get('fingerprints', {}),
         'generated_tables_changed_this_run': ob['generated_changed'],
         'leanchecker': ob.get('leanchecker'),
+        # which lines of the implementation (function bodies of pydiffx/, tests excluded) the
+        # inputs of this run executed: a measure of the generators, not a verdict
+        'implementation_lines': cover.summarise(cv.report(), cv.root),
     }
     ev = {
         'property_id': pid, 'tier': run.tier, 'seed': run.seed, 'level': 'proof',
